@@ -55,10 +55,12 @@ CHECKS = {
                  "are executed on one Plenc instance with persistent source variables rewritten in place; after every call TLC compares the returned bytes and all "
                  "live buffers with the specification's step function (one TLC state per call, re-synchronising after a rejection).",
          "note": TB + " Catalogue maps have a single entry so byte equality is exact."},
- "C11": {"technique": "frame conditions of the PlencSystem actions validated on replayed histories + direct memory-overlap observation in the harness",
+ "C11": {"technique": "frame conditions of the PlencSystem actions validated on replayed histories + direct memory-overlap observation in the harness; single calls on random types and scheduled concurrent interned decodes judged by TraceCodec / TraceSched",
          "text": "Values are immutable in the specification, so every action changes only its own target; the harness scrambles the marshalled value in place after "
                  "every Marshal, overwrites input buffers (scribble) after Unmarshal, re-reads every live buffer and variable after every call, and additionally reports "
-                 "whether memory reachable from a decoded value (incl. spare capacity) overlaps the input buffer or the returned bytes overlap the value; TLC judges all of it.",
+                 "whether memory reachable from a decoded value (incl. spare capacity) overlaps the input buffer or the returned bytes overlap the value; TLC judges all of it. "
+                 "In addition every Marshal of a few thousand random types must leave its argument as it was, and goroutines decoding through one interning codec under "
+                 "every bounded schedule overwrite their input buffers afterwards and re-read what they decoded.",
          "note": TB + " The overlap observer walks strings, slices (with capacity), pointers, maps and structs through reflect/unsafe; it is an observation on the executions the model drives."},
  "C04": {"technique": "TLC-enumerated input space + design invariants of a total decoder (progress, bounded skip); real decoders observed on every enumerated and mutated input, judged by TraceHostile",
          "text": "TLC enumerates every byte string up to length 3 (quick) / 4-5 (thorough) over a representative alphabet, checks on the model that the schema-less walk "
@@ -112,12 +114,14 @@ CHECKS = {
                  "relation plus: only tags changed, gofmt-stable, type-checks, plenc builds a codec for every tagged struct, second run changes nothing, no crash.",
          "note": "Trusted base: TLC; go/parser, go/format, go/types and reflect.StructTag in the harness. Only files expressible in the abstract struct model are varied (DESIGN.md section 8). "
                  "Open finding F14b (multi-name declarations) is a named deviation."},
- "C07": {"technique": "TLA+ models of codec construction / publication (CodecBuild) and interning (Intern) model-checked over all interleavings; schedules replayed deterministically on the real library through verif yield hooks; race detector as an observer",
+ "C07": {"technique": "TLA+ models of codec construction / publication (CodecBuild) and interning (Intern) model-checked over all interleavings; schedules replayed deterministically on the real library through verif yield hooks, results judged against the sequential specification and the hook logs validated action by action against CodecBuild / Intern (trace validation); race detector as an observer",
          "text": "TLC checks NoIncompleteUse, RegistryClosed / RegistryComplete, SameResult and termination for every interleaving of 2-3 processes building codecs for "
                  "recursive, mutually recursive, nested and failing type families on a shared registry (and rejects, as a negative control, the protocol that published "
                  "wrappers during a build), and Transparent / TableSound / NoViews / Monotone for interning; thousands of preemption-bounded and random schedules over "
                  "ten families of concurrent first uses (incl. struct-keyed map decodes sharing the key scratch pool and interned fields) are replayed on fresh instances "
-                 "with real goroutines parked at the hooks, every goroutine's result judged by TLC against the sequential specification; a sample of the schedules and a "
-                 "free-running stress run under the race detector.",
+                 "with real goroutines parked at the hooks, every goroutine's result judged by TLC against the sequential specification, and the recorded (goroutine, yield point) "
+                 "log of every schedule validated as a behaviour of CodecBuild (one action per segment; a lookup that hits where the model says the codec is not yet visible is a "
+                 "rejection) and of Intern (lock-free lookup, lock, re-check, publication); as a vacuity control the same logs must be rejected by the model of the pre-repair "
+                 "publication protocol; a sample of the schedules and a free-running stress run under the race detector.",
          "note": TB + " Atomicity is decided at the granularity of the yield hooks (commit bcee830, build tag verif); memory-model races are whatever the race detector reports on the driven executions."},
 }
